@@ -211,6 +211,16 @@ void _ZNK4QMapI10QByteArrayS0_E5valueERKS0_S3_(char *ret, char *self, char *key,
 void _ZN18QXmppSaslDigestMd512parseMessageERK10QByteArray(char *ret, char *ba) { if (!c16_dinput_init) { c16_dmap_clear(&c16_dinput); c16_dinput_init = 1; } struct c16_dmap *m = c16_dmap_new(); *m = c16_dinput; DMAP(ret) = m; }
 void _ZN18QXmppSaslDigestMd516serializeMessageERK4QMapI10QByteArrayS1_E(char *ret, char *map) { QAD *d = qb_new(1, 1); C16_BD(d)[0] = '#'; C16_BD(d)[1] = 0; QSD(ret) = d; }
 
+
+/* ---- harness oracle helper: reference parse of a PLAIN message  [authzid] NUL authcid NUL passwd  (RFC 4616), typed reads only.
+   returns bit0 = exactly two NULs, bit1 = user equals the bytes between them, bit2 = password equals the bytes after the second ---- */
+uint32_t vp_c16_plain_ref(char *raw, char *user, char *password) { QAD *r = QSD(raw), *u = QSD(user), *pw = QSD(password); uint32_t n = r->f1, nul = 0, p1 = 0, p2 = 0;
+  for (uint32_t i = 0; i < QHINT8(r); i++) { if (i >= n) break; if (C16_BD(r)[i] == 0) { if (nul == 0) p1 = i; else if (nul == 1) p2 = i; nul++; } }
+  if (nul != 2) return 0;
+  uint32_t res = 1; uint8_t uok = u->f1 == p2 - p1 - 1, pok = pw->f1 == n - p2 - 1;
+  for (uint32_t i = 0; i < QHINT8(r); i++) { if (i >= n) break; if (i > p1 && i < p2 && uok && QCH16(u)[i - p1 - 1] != C16_BD(r)[i]) uok = 0; if (i > p2 && pok && QCH16(pw)[i - p2 - 1] != C16_BD(r)[i]) pok = 0; }
+  if (uok) res |= 2; if (pok) res |= 4; return res; }
+
 /* ---- constant tables: a FRESH block per call whose content is selected by a (possibly symbolic) index ---- */
 #define C16_NAMELEN 36
 #define C16_NTAB 8
